@@ -285,7 +285,7 @@ def t16_argxy(run, fx, floors=True):
             run.fail(rule, "argxy:%s" % b.root, "%s turns a component argument into a number without args_are_xy_values() having been tested: when the flag is clear the "
                      "argument is a point number, which is then applied as an offset" % b.path, b.loc(b.term(bi)))
     if floors:
-        run.floor(rule, "conversions of component arguments", sites, 4 if run.config in (None, "prince", "default") else 2)
+        run.floor(rule, "conversions of component arguments", sites, 2)
 
 
 def _under_args_are_xy(b, bi):
